@@ -162,19 +162,18 @@ func (g *InterProceduralFlowGraph) BuildGraph() {
 		}
 	}
 
-	// Writes the summaries to file if the option is set
+	// Writes the summaries to file if the option is set.
+	// The report is written before the summaries are linked: a detached goroutine would iterate over the summaries
+	// while the rest of the analysis modifies them, and the file is closed when this function returns.
 	if summariesFile != nil {
-		// Read-only operation on summaries
-		go func() {
-			for _, summary := range g.Summaries {
-				if summary == nil {
-					continue
-				}
-				_, _ = summariesFile.WriteString(fmt.Sprintf("%s:\n", summary.Parent.String()))
-				summary.Print(false, summariesFile)
-				_, _ = summariesFile.WriteString("\n")
+		for _, summary := range g.Summaries {
+			if summary == nil {
+				continue
 			}
-		}()
+			_, _ = summariesFile.WriteString(fmt.Sprintf("%s:\n", summary.Parent.String()))
+			summary.Print(false, summariesFile)
+			_, _ = summariesFile.WriteString("\n")
+		}
 	}
 
 	// STEP 3: link all the summaries together
